@@ -332,7 +332,11 @@ func parseRangeExtension(r *bits.EBSPReader, transformSkipEnabled bool) (*RangeE
 	ext.ChromaQpOffsetListEnabledFlag = r.ReadFlag()
 	if ext.ChromaQpOffsetListEnabledFlag {
 		ext.DiffCuChromaQpOffsetDepth = r.ReadExpGolomb()
+		// value shall be in the range of 0 to 5, inclusive
 		ext.ChromaQpOffsetListLenMinus1 = r.ReadExpGolomb()
+		if ext.ChromaQpOffsetListLenMinus1 > 5 {
+			return nil, fmt.Errorf("chroma_qp_offset_list_len_minus1 %d > 5", ext.ChromaQpOffsetListLenMinus1)
+		}
 		for i := uint(0); i <= ext.ChromaQpOffsetListLenMinus1; i++ {
 			// values shall be in the range of −12 to +12, inclusive
 			ext.CbQpOffsetList = append(ext.CbQpOffsetList, int8(r.ReadSignedGolomb()))
